@@ -17,6 +17,9 @@ theorem guards_as_expected : Generated.guardTable = TablesSpec.expectedGuards :=
 /-- every envelope method that takes operands rejects non-members, comparing by identity -/
 theorem envelope_membership_guarded : TablesSpec.envelopeMembershipGuarded Generated.guardTable = true := by
   rw [guards_as_expected]; decide +kernel
+theorem resize_guards_as_expected : Generated.resizeGuards = TablesSpec.expectedResizeGuards := by rfl
+theorem resize_guards_are_the_rule : Generated.resizeGuards.all TablesSpec.shrinkRuleOk = true := by
+  rw [resize_guards_as_expected]; decide
 
 end PW.Props.Tables
 #print axioms PW.Props.Tables.hardcoded_einsum_as_expected
@@ -28,3 +31,5 @@ end PW.Props.Tables
 #print axioms PW.Props.Tables.contract_sites_consistent
 #print axioms PW.Props.Tables.guards_as_expected
 #print axioms PW.Props.Tables.envelope_membership_guarded
+#print axioms PW.Props.Tables.resize_guards_as_expected
+#print axioms PW.Props.Tables.resize_guards_are_the_rule
